@@ -519,7 +519,7 @@ class RealB:
             ctxt._active = False
         thread.cv_queue = CvStub(thread, blocked)
         ctxt._active = True
-        with Alarm(20):
+        with Alarm(300):
             thread.run()
         return snaps
 
@@ -1126,7 +1126,7 @@ class World:
         self.real.now = self.t0
         self.next_c = self.t0 + self.rng.randint(1, self.sc["tau_c"])
         self.ctxt._active = True
-        with Alarm(60):
+        with Alarm(600):
             self.thread.run()
         self.finished = True
 
